@@ -138,3 +138,19 @@ Definition row_hex (r : row) : list Z := match r with RField _ _ _ h _ _ => h | 
 Definition row_cover (r : row) : list pev := match r with RField _ _ _ _ _ c | RWarn _ c => c | _ => [] end.
 Definition pev_bytes (e : pev) : list Z :=
   match e with PPrim _ p z => match prim_bytes p z with Some bs => bs | None => [] end | _ => [] end.
+
+(** the decoder's actions as the printers see them ([ps]: the primitive types, looked up by name) *)
+Definition find_prim (ps : list prim) (n : string) : option prim :=
+  find (fun p => String.eqb (pname p) n) ps.
+Definition to_pev (ps : list prim) (a : action) : pev :=
+  match a with
+  | Ev e =>
+      match ety e, evalue e with
+      | TyList en, _ => PList (epath e) en (String.eqb en "BYTE")
+      | TyN n, Some z => match find_prim ps n with Some p => PPrim (epath e) p z | None => PStruct (epath e) n end
+      | TyN n, None => PStruct (epath e) n
+      | TyEnc n, _ => PStruct (epath e) n
+      end
+  | Wn w => PWarn ""
+  | Rd _ => PWarn "?"
+  end.
